@@ -484,6 +484,40 @@ func familyLongRun(rng *vh.RNG) {
 	}
 }
 
+// moduli and digests that make the middle column of the 64x64 -> 128 product overflow, driven through
+// BuildGCSFilter (not only through the fastReduction hook): M = c*2^32 - 1, so that N*M has its low word
+// just below 2^32, and items whose SipHash has its high word within N*M>>34 of 2^32 (found by scanning)
+func familyReduceWrap(rng *vh.RNG) {
+	r := rng.Fork("reducewrap")
+	type rc struct {
+		c uint64
+		n int
+	}
+	list := []rc{{1000, 50}, {4096, 12}, {2000, 30}, {3000, 4}}
+	if cfg.Thorough() || cfg.Search {
+		list = append(list, rc{500, 200}, rc{64, 2000}, rc{8000, 9})
+	}
+	for li, c := range list {
+		m := c.c<<32 - 1
+		key := randKey(r)
+		F := gref.Modulus(uint64(c.n), m)
+		slack := (F >> 32) / 4
+		var crafted [][]byte
+		for t := 0; t < 40000000 && len(crafted) < 3; t++ {
+			it := gref.LE64(r.U64())
+			if gref.Sip(key, it)>>32 >= 1<<32-slack {
+				crafted = append(crafted, it)
+			}
+		}
+		s := spec{P: 32, M: m, Key: key, Data: crafted}
+		for len(s.Data) < c.n {
+			s.Data = append(s.Data, randItem(r))
+		}
+		rep.Histogram[fmt.Sprintf("reducewrap:crafted=%d", len(crafted))]++
+		checkFilter(s, !cfg.Search && li == 1, "reducewrap")
+	}
+}
+
 func familyReduction(rng *vh.RNG) {
 	r := rng.Fork("reduction")
 	edge := []uint64{0, 1, 2, 0xffffffff, 0x100000000, 0x100000001, 0xfffffffe00000001, 0xffffffff00000000, 0x8000000000000000, 0xffffffffffffffff, 0x00000001ffffffff, 0xffffffff00000001}
@@ -1170,6 +1204,7 @@ func main() {
 		familyBig(rng)
 		familySerN(rng)
 		familyLongRun(rng)
+		familyReduceWrap(rng)
 		familyReduction(rng)
 		familyBuilder(rng)
 		familyBlocks(rng)
